@@ -49,9 +49,11 @@ CHECKS = [
          note=U_NOTE + "; driver drv-project (real Annotated::<Schema>::from_type and finalisation passes); z3 reading of CIP-57 in props/c12.py",
          tech="SMT translation validation: compiled `expect` on symbolic Data vs z3 reading of the published schema"),
     dict(id="C15", engine="mirsym", cat="model_checking",
-         text="PARTIAL: only the name tables printer and parser keep separately are decided - <DefaultFunction as Display>::fmt and FromStr::from_str "
-              "executed from MIR for a symbolic builtin tag (round trip and injectivity for every tag), Type::to_doc leaf keywords against the "
-              "grammar rule type_info; layout, numbers, string escapes, nested constants and the peg parser as a whole are outside the claim",
+         text="PARTIAL: decided are the tables printer and parser keep separately - <DefaultFunction as Display>::fmt and FromStr::from_str executed "
+              "from MIR for a symbolic builtin tag (round trip and injectivity for every tag), Type::to_doc (leaf and nested list/pair types) "
+              "against the grammar rule type_info - and the data syntax the printer emits (Constant::to_doc_list_plutus_data from MIR over a "
+              "document model: token stream of the grammar with the logical constructor index, symbolic tags/integers/bytes); layout, numbers, "
+              "string escapes and the peg parser as a whole are outside the claim",
          note=M_NOTE, tech="SMT-based symbolic execution of rustc MIR (z3) with a symbolic builtin tag"),
     dict(id="C18", engine="mirsym", cat="model_checking",
          text="PARTIAL: (validate) Parameter validation (validate_data / validate_schema, the acceptance test of Validator::apply) executed from the "
